@@ -415,9 +415,7 @@ Section Meta.
 Variable sum : list N -> N.
 Variable sha1 : list N -> list N.
 
-(* what both constructors are meant to produce *)
-Definition expected (d : list N) (data : list N) (pl : Z) : metainfo :=
-  assemble sha1 d (lenZ data) (map sum (pieces (Z.to_N pl) data)) pl.
+Local Notation expected := (expected sum sha1).
 
 Theorem new_metainfo_bytes_spec d data pl : (0 < pl)%Z ->
   new_metainfo_bytes sum sha1 d data pl = Ok (expected d data pl).
